@@ -26,7 +26,7 @@ fn validate_method(ctx: &Context, input: &DeriveInput) -> TokenStream {
                 // Walk exactly the bytes the view made by `ptr_from_bytes` covers.
                 quote! {
                     let __flatty_bytes = unsafe {
-                        __flatty_bytes.get_unchecked(..::flatty::utils::floor_mul(__flatty_bytes.len(), Self::ALIGN))
+                        __flatty_bytes.get_unchecked(..::flatty::utils::floor_mul(__flatty_bytes.len(), <Self as ::flatty::traits::FlatBase>::ALIGN))
                     };
                     #items
                 }
@@ -70,7 +70,7 @@ fn validate_method(ctx: &Context, input: &DeriveInput) -> TokenStream {
                         let data = unsafe {
                             __flatty_bytes.get_unchecked(
                                 Self::DATA_OFFSET..(Self::DATA_OFFSET
-                                    + ::flatty::utils::floor_mul(__flatty_bytes.len() - Self::DATA_OFFSET, Self::ALIGN)),
+                                    + ::flatty::utils::floor_mul(__flatty_bytes.len() - Self::DATA_OFFSET, <Self as ::flatty::traits::FlatBase>::ALIGN)),
                             )
                         };
                     }
